@@ -281,7 +281,11 @@ class _AndFilterToSqlWhere:
                 if file_filter.negated
                 else sql.Page.path.like  # type: ignore[attr-defined]
             )
-            and_conds.append(like_op(file_filter.path_glob.replace("*", "%")))
+            like_arg = "%".join(
+                _escape_like_arg(part)
+                for part in file_filter.path_glob.split("*")
+            )
+            and_conds.append(like_op(like_arg, escape="\\"))
         return and_(and_conds[0], *and_conds[1:])
 
     @_to_sql_where_helper
